@@ -156,7 +156,8 @@ def gen_tables(ctx, maxr=12, maxc=12, malformed=False):
                 Phi[i, o, rng.randrange(d)] = np.nan
             else:
                 Fn[i, o] = np.nan
-    return Fn, Xi, Phi
+    # -0.0 has no exact-rational counterpart (the codec would send +0): normalise signed zeros
+    return Fn + 0.0, Xi + 0.0, Phi
 
 
 def gen_params(ctx, cols, aligned, malformed=False):
